@@ -16,16 +16,7 @@ from vf.checks import _storage as S
 RENEW = 31 * 24 * 60 * 60
 
 
-def apply_writes(data, datav, new_length):
-    """The reference semantics of one share's write vector + new_length."""
-    d = bytearray(data)
-    for off, w in datav:
-        if off > len(d):
-            d.extend(bytes(off - len(d)))
-        d[off:off + len(w)] = w
-    if new_length is not None and new_length < len(d):
-        del d[new_length:]
-    return d
+apply_writes = S.apply_writes
 
 
 def classify_data(pre, datav, new_length, model_post, real):
@@ -56,7 +47,7 @@ def run(ck):
     ck.rule = ("one case = fresh server, one storage index with 1..3 shares (v1 or v2 container each), 0..10 "
                "pre-loaded leases, then <=40 ops per share; distinct = distinct (setup, op history); "
                "non-trivial = history grew a container past its extra-lease offset and truncated or deleted")
-    ncases = 130 if ck.tier == "quick" else 2400
+    ncases = 220 if ck.tier == "quick" else 9000
     for ci in range(ncases):
         if not ck.mine(ci):
             continue
@@ -66,6 +57,12 @@ def run(ck):
         case = S.Case(rng)
         try:
             _one_case(ck, rng, case, MutableShareFile)
+        except Exception as e:      # the real code raised during set-up / state comparison
+            import traceback
+            tb = traceback.extract_tb(e.__traceback__)[-1]
+            ck.violation("op-raises-%s" % type(e).__name__, "%s: %s at %s:%d (outside a judged operation)" % (
+                type(e).__name__, e, os.path.basename(tb.filename), tb.lineno), {"case": ci})
+            ck.case("history", key=("raised", ci), nontrivial=False)
         finally:
             case.close()
     for m in ("share-data", "write-result", "read-result", "existence", "leases-unchanged-by-write", "container-layout"):
@@ -446,11 +443,17 @@ def _one_case(ck, rng, case, MutableShareFile):
             sample={"setup": setup, "ops": len(history), "first_ops": history[:4]})
 
 
-# MUST_CATCH (scratch copies via VF_REPO): see list at the end of the final report
-#  1. mutable.py _write_share_data: `if offset+length >= data_length` -> `>`
-#  2. mutable.py _write_share_data: zero fill of the gap omitted
-#  3. mutable.py _change_container_size: extra leases re-written 4 bytes off
-#  4. mutable.py writev: truncation (new_length < cur_length) not applied
-#  5. mutable.py _read_share_data: reads not clipped at data_length
-#  6. server.py _evaluate_write_vectors: new_length == 0 does not unlink
-#  7. mutable.py _change_container_size: leases_size forgets the 4-byte count
+# MUST_CATCH -- planted breaks run against scratch copies (VF_REPO), quick tier, seed 0:
+#  1. mutable.py _write_share_data: `offset+length >= data_length` -> `>`      NOT CAUGHT: equivalent mutant (when the write
+#       ends exactly at data_length the block only re-writes the same length; nothing observable changes)
+#  2. mutable.py _write_share_data: zero fill of the gap omitted               CAUGHT (gap-not-zero-filled)
+#  3. mutable.py _change_container_size: extra leases re-written 4 bytes short / 4 bytes further
+#                                                                               CAUGHT (leases-changed-by-growth)
+#  4. mutable.py writev: truncation not applied                                CAUGHT (truncate-not-applied)
+#  5. mutable.py _read_share_data: reads not clipped                           CAUGHT (op-raises-AssertionError: the code's own precondition)
+#  6. server.py _evaluate_write_vectors: new_length == 0 does not unlink       CAUGHT (share-not-deleted)
+#  7. mutable.py _change_container_size: leases_size forgets the count field   CAUGHT (leases-changed-by-growth)
+#  8. mutable.py writev: `new_length < cur_length` -> `!=`                      CAUGHT (larger-new-length-extends)
+#  9. mutable.py container test `> extra_lease_offset` -> `> extra_lease_offset + 1`  CAUGHT (op-raises-AssertionError)
+# 10. server.py: empty bucket dir not removed                                  CAUGHT (bucket-dir-not-removed)
+# 11. server.py: test vectors evaluated after the writes                       CAUGHT (testv-outcome-wrong, ...)
